@@ -9,6 +9,7 @@
    hand-out order to resume order per receiving fiber is now proved (`per_sender_order`, executions without abandoned waits). -/
 import JanetModel.Thread.EndToEnd
 import JanetModel.Thread.SpawnLemmas
+import JanetModel.Thread.Payload
 
 namespace JanetModel.Props.C08
 open JanetModel.Thread
@@ -180,6 +181,62 @@ theorem writer_wakeup_counterexample :
     (run ⟨true, true, true, true, true, true⟩ acts (init 1)).woken = [(3, Kind.write)] := by
   decide
 
+/-! ### structurally equal to what was sent -/
+
+/-- a fiber is only ever resumed with an item that some give put into the channel (no invention, for every interleaving,
+    abandoned waits included): the channel machinery moves the PACKED value (`Item`) unchanged -/
+theorem got_was_given (cfg : Cfg) (hq : cfg.requeue = true) (hd : cfg.redispatch = true) (limit : Nat) (acts : List Act)
+    (r : Nat) (x : Item) (hg : (r, x) ∈ gotAll (run cfg acts (init limit)).log) : x ∈ gaveSeq (run cfg acts (init limit)).log := by
+  have h := exactly_once_resumed cfg hq hd limit acts x
+  have hpos : 0 < (gotAll (run cfg acts (init limit)).log).countP (fun d => d.2 == x) :=
+    List.countP_pos_iff.mpr ⟨(r, x), hg, by simp⟩
+  have : 0 < (gaveSeq (run cfg acts (init limit)).log).countP (· == x) := by
+    simp only at h; omega
+  obtain ⟨y, hy, hyx⟩ := List.countP_pos_iff.mp this
+  have : y = x := by simpa using hyx
+  exact this ▸ hy
+
+open JanetModel.Marsh in
+/-- `Props.C09.roundtrip_graph_top`, word for word and with the same proof from `Marsh.one_roundtrip` (the lemma that IS
+    C09's `roundtrip_graph`).  Restated here instead of importing `Props/C09` so that this module does not depend on the
+    code-object files of C09's closure (`Marsh/CodeRoundtrip` ..), which other builders edit. -/
+theorem roundtrip_graph_top' (H : List Obj) (hH : HeapWF H) (x : Val) (hx : ValWF x) (bs : List Nat)
+    (hm : marshalOne topFuel H 0 x = some (bs, H.length)) :
+    marshal H x = some bs ∧ unmarshal bs = some (x, H, bs.length) := by
+  refine ⟨by simp [marshal, hm], ?_⟩
+  have h := (one_roundtrip H hH topFuel 0 x bs H.length [] (Nat.zero_le _) hx hm).2.2.2
+  simp only [List.append_nil] at h
+  simp [unmarshal, h, slice]
+
+open JanetModel.Marsh JanetModel.Thread.Payload in
+/-- ★ structurally equal: unpacking what janet_chan_pack produced gives back the value AND its whole reachable heap - same
+    shape, same sharing, same cycles (equality of reference-order presentations, C09's notion of graph isomorphism) - for every
+    data graph.  The marshalled case IS C09's `roundtrip_graph_top` (= `roundtrip_graph_top'` above; thread channels use the same `janet_marshal` /
+    `janet_unmarshal`; JANET_MARSHAL_UNSAFE changes pointer-like cases only - regenerated flags, `Thread.Current.payload_codec_shape`);
+    nil / booleans / numbers travel as the Janet word.  Side condition as in C09: `(x, H)` is a reference-order presentation
+    of the payload with no garbage (checked there by correspondence).  Not covered (tested by topo.py / C09's oracles):
+    functions, fibers, abstracts other than by the refcount model below, NO_REALLOC pointer buffers (sent by address). -/
+theorem payload_roundtrip (H : List Obj) (hH : HeapWF H) (x : Val) (hx : ValWF x) (bs : List Nat)
+    (hfull : marshalOne topFuel H 0 x = some (bs, H.length)) (p : Packed) (hp : pack H x = some p) :
+    unpack p = some (x, H) := by
+  unfold pack at hp
+  by_cases hpt : passthrough H x = true
+  · simp only [hpt, if_true, Option.some.injEq] at hp
+    subst hp; rfl
+  · have hpf : passthrough H x = false := by simpa using hpt
+    obtain ⟨hm, hu⟩ := roundtrip_graph_top' H hH x hx bs hfull
+    rw [hpf, hm] at hp
+    simp at hp
+    subst hp
+    simp [unpack, hu]
+
+open JanetModel.Marsh JanetModel.Thread.Payload in
+-- non-vacuity: an array that contains the same string twice (sharing) and an int: packed as an image, unpacked equal
+example :
+    let H : List Obj := [.array false [.ref 1, .ref 1, .int 7], .str .string [104, 105]]
+    (pack H (.ref 0)).isSome = true ∧ (pack H (.ref 0)).bind unpack = some (.ref 0, H) ∧ pack H (.int 5) = some (.raw (.int 5) H) := by
+  decide
+
 /-! ### supervisor channels
 
    A supervisor event (`[:ok value task-id]`, `[:error ..]`, ...) is pushed by janet_loop1 with
@@ -284,12 +341,62 @@ def RInv (s : RSt) : Prop :=
   (s.freed = false → s.refcount = s.holds.length + s.transit) ∧ (s.freed = true → s.holds = [] ∧ s.transit = 0) ∧
     s.useAfterFree = false
 
-theorem rstep_inv (cfg : RCfg) (hc : cfg.increfBeforeSend = true) (hk : cfg.recvKnownDecref = true) (s : RSt) (a : RAct) (h : RInv s) : RInv (rstep cfg s a) := by
+/-- a thread that reaches the object has a table entry for it -/
+def RReach (s : RSt) : Prop := ∀ t, s.reach t = true → t ∈ s.holds
+
+theorem rstep_reach (cfg : RCfg) (s : RSt) (a : RAct) (h : RReach s) : RReach (rstep cfg s a) := by
+  cases a with
+  | send t => simp only [rstep]; split <;> exact h
+  | recv t =>
+    simp only [rstep]
+    split
+    · exact h
+    · split
+      · rename_i hm
+        intro u hu
+        simp only [Bool.or_eq_true, beq_iff_eq] at hu
+        rcases hu with rfl | hu
+        · exact hm
+        · exact h u hu
+      · intro u hu
+        simp only [Bool.or_eq_true, beq_iff_eq] at hu
+        rcases hu with rfl | hu
+        · exact List.mem_cons_self
+        · exact List.mem_cons_of_mem _ (h u hu)
+  | drop t =>
+    intro u hu
+    simp only [rstep] at hu
+    by_cases hut : u = t
+    · simp [hut] at hu
+    · simp [hut] at hu; exact h u hu
+  | sweep t =>
+    simp only [rstep]
+    split
+    · rename_i hm
+      intro u hu
+      have hne : u ≠ t := by intro e; rw [e, hm.2] at hu; cases hu
+      exact (List.mem_erase_of_ne hne).mpr (h u hu)
+    · exact h
+  | use t => simp only [rstep]; split <;> exact h
+
+theorem rrun_reach (cfg : RCfg) : ∀ (acts : List RAct) (s : RSt), RReach s → RReach (rrun cfg acts s) := by
+  intro acts
+  induction acts with
+  | nil => intro s h; exact h
+  | cons a acts ih => intro s h; exact ih _ (rstep_reach cfg s a h)
+
+theorem rstep_inv (cfg : RCfg) (hc : cfg.increfBeforeSend = true) (hk : cfg.recvKnownDecref = true) (s : RSt) (a : RAct) (h : RInv s)
+    (hre : RReach s) : RInv (rstep cfg s a) := by
   obtain ⟨h1, h2, h3⟩ := h
   cases hf : s.freed with
   | true =>
     obtain ⟨hh, ht⟩ := h2 hf
-    cases a <;> simp [rstep, hh, ht, RInv, hf, h3]
+    have hnr : ∀ t, s.reach t = false := by
+      intro t
+      cases hr : s.reach t with
+      | false => rfl
+      | true => have := hre t hr; rw [hh] at this; cases this
+    cases a <;> simp [rstep, hh, ht, RInv, hf, h3, hnr]
   | false =>
     have hr := h1 hf
     cases a with
@@ -306,6 +413,11 @@ theorem rstep_inv (cfg : RCfg) (hc : cfg.increfBeforeSend = true) (hk : cfg.recv
         · simp [RInv, hf, h3, hr]; omega
         · simp [RInv, hf, h3, hr]; omega
     | drop t => simp [rstep, RInv, hf, h3, hr]
+    | use t =>
+      simp only [rstep]
+      split
+      · simp [RInv, hf, h3, hr]
+      · exact ⟨h1, h2, h3⟩
     | sweep t =>
       simp only [rstep]
       split
@@ -323,11 +435,13 @@ theorem rstep_inv (cfg : RCfg) (hc : cfg.increfBeforeSend = true) (hk : cfg.recv
       · exact ⟨h1, h2, h3⟩
 
 theorem rrun_inv (cfg : RCfg) (hc : cfg.increfBeforeSend = true) (hk : cfg.recvKnownDecref = true) :
-    ∀ (acts : List RAct) (s : RSt), RInv s → RInv (rrun cfg acts s) := by
+    ∀ (acts : List RAct) (s : RSt), RInv s → RReach s → RInv (rrun cfg acts s) := by
   intro acts
   induction acts with
-  | nil => intro s h; exact h
-  | cons a acts ih => intro s h; exact ih _ (rstep_inv cfg hc hk s a h)
+  | nil => intro s h _; exact h
+  | cons a acts ih => intro s h hre; exact ih _ (rstep_inv cfg hc hk s a h hre) (rstep_reach cfg s a hre)
+
+theorem rreach_init : RReach {} := by intro t ht; simp at ht; simp [ht]
 
 /-- ★ no free while any thread can reach the object: with the reference taken before sending, at every point of every
     interleaving of send / receive / drop / sweep steps of any number of threads, the count equals the number of holders
@@ -337,7 +451,75 @@ theorem refcount_ge_reachers (cfg : RCfg) (hc : cfg.increfBeforeSend = true) (hk
     let s := rrun cfg acts {}
     (s.freed = false → s.refcount = s.holds.length + s.transit) ∧ (s.freed = true → s.holds = [] ∧ s.transit = 0) ∧
       s.useAfterFree = false :=
-  rrun_inv cfg hc hk acts {} (by simp [RInv])
+  rrun_inv cfg hc hk acts {} (by simp [RInv]) rreach_init
+
+/-! #### locks (`ev/lock`, `ev/rwlock`) and channels: valid while reachable, released after the last drop
+
+   `janet_mutex_type` / `janet_rwlock_type` are threaded abstracts WITHOUT marshal hooks (regenerated: `Current.lock_types_shape`):
+   the only way across a thread boundary is the LB_THREADED_ABSTRACT path of marsh.c (pointer + incref = `send` / `recv`), their
+   finalizer only destroys the OS primitive.  `use t` = thread t locks / unlocks (touches the abstract's memory). -/
+
+/-- ★ objects shared between threads (locks, rwlocks, thread channels) remain valid while any thread can reach them: at every
+    point of every interleaving of send / receive / use / drop / sweep steps of any number of threads, if some thread still
+    references the object, or a copy of the pointer is inside a message in transit, the object has not been freed - and no
+    lock / unlock / channel operation ever touched freed memory -/
+theorem shared_valid_while_reachable (cfg : RCfg) (hc : cfg.increfBeforeSend = true) (hk : cfg.recvKnownDecref = true)
+    (acts : List RAct) :
+    let s := rrun cfg acts {}
+    (∀ t, s.reach t = true → s.freed = false) ∧ (0 < s.transit → s.freed = false) ∧ s.useAfterFree = false := by
+  have h := rrun_inv cfg hc hk acts {} (by simp [RInv]) rreach_init
+  have hr := rrun_reach cfg acts {} rreach_init
+  refine ⟨fun t ht => ?_, fun htr => ?_, h.2.2⟩
+  · cases hf : (rrun cfg acts {}).freed with
+    | false => rfl
+    | true =>
+      have := (h.2.1 hf).1
+      have hm := hr t ht
+      rw [this] at hm; cases hm
+  · cases hf : (rrun cfg acts {}).freed with
+    | false => rfl
+    | true =>
+      have := (h.2.1 hf).2
+      omega
+
+/-- ★ ... and they are released after the last reference is dropped: from ANY state the protocol can be in with nothing in
+    transit, once every thread has dropped its references, the collectors of the holding threads (in table order) free the
+    object - the last sweep brings the count to 0 and runs the finalizer (mutexgc / rwlockgc / janet_chanat_gc) -/
+theorem shared_released_after_all_dropped (cfg : RCfg) : ∀ (l : List Nat) (s : RSt), s.holds = l → l ≠ [] → l.Nodup →
+    RInv s → s.freed = false → s.transit = 0 → (∀ t, s.reach t = false) →
+    (rrun cfg (l.map RAct.sweep) s).freed = true := by
+  intro l
+  induction l with
+  | nil => intro s _ hne; exact absurd rfl hne
+  | cons t ts ih =>
+    intro s hh _ hnd hinv hf htr hre
+    have hrc : s.refcount = (t :: ts).length + 0 := by have := hinv.1 hf; rw [hh, htr] at this; exact this
+    have hmem : t ∈ s.holds := by rw [hh]; exact List.mem_cons_self
+    have hstep : rstep cfg s (.sweep t) =
+        { s with holds := s.holds.erase t, refcount := s.refcount - 1, freed := s.freed || (s.refcount - 1 == 0) } := by
+      simp [rstep, hmem, hre t]
+    show (rrun cfg (ts.map RAct.sweep) (rstep cfg s (.sweep t))).freed = true
+    rw [hstep]
+    cases ts with
+    | nil =>
+      simp [rrun, hrc]
+    | cons u us =>
+      have herase : s.holds.erase t = u :: us := by rw [hh]; simp
+      have hnd' : (u :: us).Nodup := (List.nodup_cons.mp hnd).2
+      refine ih _ (by simpa using herase) (by simp) hnd' ?_ (by simp [hf, hrc]) htr hre
+      refine ⟨fun _ => ?_, fun hfr => ?_, hinv.2.2⟩
+      · simp only [herase, htr, hrc]; simp
+      · simp [hf, hrc] at hfr
+
+/-- if the marshaller did not take the reference before sending, a lock dies in transit and the receiving thread locks freed
+    memory: thread 0 sends the lock, drops it and collects; thread 1 receives the pointer and acquires -/
+theorem lock_use_counterexample :
+    let s := rrun ⟨false, true⟩ [.send 0, .drop 0, .sweep 0, .recv 1, .use 1] {}
+    s.freed = true ∧ s.reach 1 = true ∧ s.useAfterFree = true := by
+  decide
+
+example : (rrun ⟨true, true⟩ [.send 0, .recv 1, .use 1, .use 0, .drop 0, .sweep 0, .use 1, .drop 1, .sweep 1] {}).freed = true ∧
+    (rrun ⟨true, true⟩ [.send 0, .recv 1, .use 1, .use 0, .drop 0, .sweep 0, .use 1, .drop 1, .sweep 1] {}).useAfterFree = false := by decide
 
 /-- ... and it IS freed by the sweep of the last holder once that thread no longer references it. -/
 theorem refcount_freed_after_last_drop (cfg : RCfg) (s : RSt) (t : Nat) (h : RInv s) (hf : s.freed = false)
